@@ -112,14 +112,13 @@ int main(int, char**) {
         "{\"class\": \"ListOffsetArray64\", \"offsets\": \"i64\", \"content\": "
         "{\"class\": \"NumpyArray\", \"primitive\": \"float64\", "
         "\"parameters\": {\"units\": \"cm\", \"limits\": [0, 1.5, null]}}}");
-    // Note "limits": [0, 1.5, null] comes back as [0,1,null]: that is libawkward's
-    // own copyjson() in src/libawkward/io/json.cpp (it writes doubles with
-    // Int64((int64_t)GetDouble())), not the shim; real rapidjson gives the same.
+    // Note: before the repair of copyjson() in src/libawkward/io/json.cpp (it wrote doubles with
+    // Int64((int64_t)GetDouble())) "limits": [0, 1.5, null] came back as [0,1,null].
     show("Form::fromjson(...).tojson(false, false)",
          form->tojson(false, false),
          "{\"class\":\"ListOffsetArray64\",\"offsets\":\"i64\",\"content\":"
          "{\"class\":\"NumpyArray\",\"itemsize\":8,\"format\":\"d\","
-         "\"primitive\":\"float64\",\"parameters\":{\"limits\":[0,1,null],\"units\":\"cm\"}}}");
+         "\"primitive\":\"float64\",\"parameters\":{\"limits\":[0,1.5,null],\"units\":\"cm\"}}}");
 
     ak::util::Parameters params;
     params["__array__"] = "\"string\"";
